@@ -9,5 +9,6 @@ CONSTANTS
   Class = {"ok", "fail", "stale", "sc", "bi"}
   MaxPool = 6
   FilterBuiltins = FALSE
+  Txn <- GenTxn
 INVARIANT GPrint
 CHECK_DEADLOCK FALSE
